@@ -145,6 +145,7 @@ def handle (st : DState) (line : String) : DState × String :=
       | ["iterpending"] => run .iterPending
       | ["close"] => run .close
       | ["exit"] => run .withExit
+      | ["reset"] => run .reset
       | _ => (st, "bad-op")
     | "mreset" =>
       -- children separated by "|"
